@@ -6,4 +6,19 @@ ProgA == (1 :> <<[key |-> "A", plan |-> "pA"], [key |-> "B", plan |-> "pB"]>>) @
 \* three threads, one call each, two of them on the same array
 ProgB == (1 :> <<[key |-> "A", plan |-> "pA"]>>) @@ (2 :> <<[key |-> "A", plan |-> "pA"]>>) @@
          (3 :> <<[key |-> "B", plan |-> "pB"]>>)
+\* four threads, one call each, three distinct keys (thorough tier: no schedule export, invariants only)
+ProgC == (1 :> <<[key |-> "A", plan |-> "pA"]>>) @@ (2 :> <<[key |-> "A", plan |-> "pA"]>>) @@
+         (3 :> <<[key |-> "B", plan |-> "pB"]>>) @@ (4 :> <<[key |-> "C", plan |-> "pC"]>>)
+\* three threads, two calls each
+ProgD == (1 :> <<[key |-> "A", plan |-> "pA"], [key |-> "B", plan |-> "pB"]>>) @@
+         (2 :> <<[key |-> "B", plan |-> "pB"], [key |-> "A", plan |-> "pA"]>>) @@
+         (3 :> <<[key |-> "A", plan |-> "pA"], [key |-> "C", plan |-> "pC"]>>)
+\* four threads, two calls each; five threads, one call each
+ProgE == (1 :> <<[key |-> "A", plan |-> "pA"], [key |-> "B", plan |-> "pB"]>>) @@
+         (2 :> <<[key |-> "B", plan |-> "pB"], [key |-> "A", plan |-> "pA"]>>) @@
+         (3 :> <<[key |-> "A", plan |-> "pA"], [key |-> "C", plan |-> "pC"]>>) @@
+         (4 :> <<[key |-> "C", plan |-> "pC"], [key |-> "B", plan |-> "pB"]>>)
+ProgF == (1 :> <<[key |-> "A", plan |-> "pA"]>>) @@ (2 :> <<[key |-> "A", plan |-> "pA"]>>) @@
+         (3 :> <<[key |-> "B", plan |-> "pB"]>>) @@ (4 :> <<[key |-> "C", plan |-> "pC"]>>) @@
+         (5 :> <<[key |-> "B", plan |-> "pB"]>>)
 =============================================================================
